@@ -12,7 +12,7 @@ if __name__ == "__main__":
     paths = []
     for i in range(n):
         p = "%s/%s_%d.scn" % (d, prof, seed + i)
-        open(p, "w").write(gen.PROFILES[prof](random.Random(seed + i)))
+        open(p, "w").write(gen.generate(prof, seed + i))
         paths.append(p)
     res = corr.run_both(paths)
     bad = 0; panics = 0; odd = 0
